@@ -16,7 +16,8 @@ DECIDES = ('(a) single source: in USBDevice the UTMI transmit lines have exactly
            'rx_ready_for_response, data_requested, status_requested, timer.tx_allowed), or sits in an FSM state that is '
            'unreachable once the edges carrying such a strobe are removed; those strobes are only produced after the end of a '
            'received token/data packet plus the inter-packet delay (C01, C02, C05); (d) framing of what is sent: C03, C04; (e) a complete '
-           'token addressed to another device withdraws the token direction (interface.pid) the endpoints act on. ')
+           'token addressed to another device withdraws the token direction (interface.pid) the endpoints act on. '
+           '(f) the token detector starts its response timer only where it reports a token (not for SOFs or foreign tokens). ')
 NOT_DECIDED = 'absence of overlap across arbitrary traffic (needs timing); user-supplied request handlers.'
 STROBES = ('ready_for_response', 'rx_ready_for_response', 'data_requested', 'status_requested', 'timer.tx_allowed')
 
